@@ -71,7 +71,21 @@ class SuperposTranslator:
             warnings.simplefilter('ignore')           # invalid escape sequences in lcapy doc-strings
             self.sup = ast.parse(self.sup_src)
             self.net = ast.parse(self.net_src)
-        self.sha = hashlib.sha256((self.sup_src + self.net_src).encode()).hexdigest()
+        # the grouping of sources into sub-netlists also lives in netlistmixin.py, subnetlist.py and mnacpts.py
+        import os
+        d = os.path.dirname(sup_path)
+        self.extra_src = {}
+        self.extra = {}
+        with warnings.catch_warnings():
+            warnings.simplefilter('ignore')
+            for nm in ('netlistmixin.py', 'subnetlist.py', 'mnacpts.py'):
+                try:
+                    self.extra_src[nm] = open(os.path.join(d, nm)).read()
+                    self.extra[nm] = ast.parse(self.extra_src[nm])
+                except (OSError, SyntaxError) as e:
+                    self.extra_src[nm] = ''
+                    self.extra[nm] = None
+        self.sha = hashlib.sha256((self.sup_src + self.net_src + ''.join(self.extra_src[k] for k in sorted(self.extra_src))).encode()).hexdigest()
         self.out = {}
 
     # -- kinds -------------------------------------------------------------------------
@@ -253,17 +267,118 @@ class SuperposTranslator:
             raise Untranslatable('_analysis_groups: merged keys %s' % res)
         self.out['agroups'] = res
 
+    # -- grouping of sources into sub-netlists ---------------------------------------------------------
+    def _tree(self, nm):
+        t = self.extra.get(nm)
+        if t is None:
+            raise Untranslatable('lcapy/%s cannot be read or parsed' % nm)
+        return t
+
+    def _exact(self, where, stmts, patterns):
+        """the statements must match the patterns one to one, in order; returns the match objects"""
+        texts = [_u(s_) for s_ in stmts]
+        if len(texts) != len(patterns):
+            raise Untranslatable('%s: %d statements, expected %d: %s' % (where, len(texts), len(patterns), ' | '.join(t[:60] for t in texts)))
+        return [_expect(where, t, p) for t, p in zip(texts, patterns)]
+
+    def tr_source_groups(self):
+        ATTR = {'Voc': True, 'Isc': False}
+        # NetlistMixin.independent_source_groups
+        f = _find(self._tree('netlistmixin.py'), 'NetlistMixin', 'independent_source_groups')
+        if [a.arg for a in f.args.args] != ['self', 'transform']:
+            raise Untranslatable('independent_source_groups: arguments')
+        st = _stmts(f.body)
+        if len(st) != 3 or not isinstance(st[1], ast.For) or st[1].orelse:
+            raise Untranslatable('independent_source_groups: body shape')
+        _expect('independent_source_groups', _u(st[0]), r'groups = \{\}')
+        _expect('independent_source_groups', _u(st[2]), r'return groups')
+        loop = st[1]
+        _expect('independent_source_groups', _u(loop.target) + ' in ' + _u(loop.iter), r'\(?eltname, elt\)? in self\.elements\.items\(\)')
+        body = _stmts(loop.body)
+        if len(body) != 4 or not isinstance(body[2], ast.If):
+            raise Untranslatable('independent_source_groups: loop body shape')
+        _expect('independent_source_groups', _u(body[0]), r'if not elt\.is_independent_source:\n\s+continue')
+        _expect('independent_source_groups', _u(body[1]), r'cpt = elt\.cpt')
+        br = body[2]
+        _expect('independent_source_groups', _u(br.test), r'cpt\.is_voltage_source')
+        attr = {}
+        transform = True
+        for tag, blk in ((True, br.body), (False, br.orelse)):
+            m1, m2 = self._exact('independent_source_groups', _stmts(blk), [r'(\w+) = cpt\.(\w+)', r'cpt_kinds = (\w+)\.kinds\((\w*)\)'])
+            if m1.group(1) != m2.group(1) or m1.group(2) not in ATTR:
+                raise Untranslatable('independent_source_groups: kinds taken from `%s`' % m1.group(2))
+            attr[tag] = ATTR[m1.group(2)]
+            if m2.group(2) != 'transform':
+                transform = False
+        _expect('independent_source_groups', _u(body[3]),
+                r'for cpt_kind in cpt_kinds:\n\s+if cpt_kind not in groups:\n\s+groups\[cpt_kind\] = \[\]\n\s+groups\[cpt_kind\]\.append\(eltname\)')
+        self.out['isg_attr'] = attr
+        self.out['isg_transform'] = transform
+        # V._select / I._select
+        sel = {}
+        for cls, tag in (('V', True), ('I', False)):
+            f = _find(self._tree('mnacpts.py'), cls, '_select')
+            (m,) = self._exact('%s._select' % cls, _stmts(f.body),
+                               [r'return self\._netmake\(args=self\.cpt\.(\w+)\.netval\(kind\), ignore_keyword=True\)'])
+            if m.group(1) not in ATTR:
+                raise Untranslatable('%s._select: value taken from `%s`' % (cls, m.group(1)))
+            sel[tag] = ATTR[m.group(1)]
+        self.out['sel_attr'] = sel
+        # Netlist._subcircuits_make
+        f = _find(self.net, 'Netlist', '_subcircuits_make')
+        st = _stmts(f.body)
+        if len(st) != 6 or not isinstance(st[3], ast.For) or st[3].orelse:
+            raise Untranslatable('_subcircuits_make: body shape')
+        self._exact('_subcircuits_make', st[:3] + st[4:],
+                    [r'cct = self\.expand\(\)', r'groups = cct\._analysis_groups\(\)', r'sub = TransformDomains\(\)',
+                     r"if sub == \{\} and \(?not nowarn\)?:\n\s+warn\('Netlist has no sources'\)", r'return sub'])
+        loop = st[3]
+        _expect('_subcircuits_make', _u(loop.target) + ' in ' + _u(loop.iter), r'\(?kind, sources\)? in groups\.items\(\)')
+        (m,) = self._exact('_subcircuits_make', _stmts(loop.body), [r'sub\[(\w+)\] = SubNetlist\((\w+), (\w+)\)'])
+        self.out['sub_per_key'] = (m.group(1) == 'kind' and m.group(3) == 'kind')
+        self.out['sub_whole'] = (m.group(2) == 'cct')
+        # SubNetlist.__new__: the sub-netlist is netlist.select(kind)
+        f = _find(self._tree('subnetlist.py'), 'SubNetlist', '__new__')
+        if [a.arg for a in f.args.args] != ['cls', 'netlist', 'kind']:
+            raise Untranslatable('SubNetlist.__new__: arguments')
+        self._exact('SubNetlist.__new__', _stmts(f.body),
+                    [r"kinds = \('dc', 'transient', 'time', 'ivp', 'laplace'\)",
+                     r"if not isinstance\(kind, str\) or kind\[0\] == 'n':\n\s+pass\nelif kind not in kinds:\n\s+raise ValueError\(.*\)",
+                     r'obj = netlist\.select\(kind=kind\)', r'obj\.context = state\.new_context\(\)', r'obj\.kind = kind',
+                     r'obj\.__class__ = cls', r'obj\._analysis = obj\.analyse\(\)', r'obj\.solver_method = netlist\.solver_method',
+                     r'return obj'])
+        # Netlist.select: every component goes through _select(kind)
+        f = _find(self.net, 'Netlist', 'select')
+        if [a.arg for a in f.args.args] != ['self', 'kind']:
+            raise Untranslatable('Netlist.select: arguments')
+        self._exact('Netlist.select', _stmts(f.body),
+                    [r'new = self\._new\(\)', r'new\.kind = kind',
+                     r'for cpt in self\._elements\.values\(\):\n\s+net = cpt\._select\(kind\)\n\s+new\._add\(net\)', r'return new'])
+        self.out['select_every_cpt'] = True
+        # Netlist.get_I / _get_Vd: the results of ALL sub-netlists are accumulated with add
+        f = _find(self.net, 'Netlist', 'get_I')
+        self._exact('Netlist.get_I', _stmts(f.body),
+                    [r'self\._add_ground\(\)', r'subs = self\._subcircuits_make\(nowarn=nowarn\)', r'result = SuperpositionCurrent\(\)',
+                     r'for sub in subs\.values\(\):\n\s+I = sub\.get_I\(name\)\n\s+result\.add\(I\)', r'result = result', r'return result'])
+        f = _find(self.net, 'Netlist', '_get_Vd')
+        self._exact('Netlist._get_Vd', _stmts(f.body),
+                    [r'self\._add_ground\(\)', r'subs = self\._subcircuits_make\(nowarn=nowarn\)', r'result = SuperpositionVoltage\(\)',
+                     r'for sub in subs\.values\(\):\n\s+Vd = sub\.get_Vd\(Np, Nm\)\n\s+result\.add\(Vd\)', r'result = result\.canonical\(\)', r'return result'])
+        self.out['accumulate_all'] = True
+
     def translate_all(self):
         self.tr_kinds()
         self.tr_select()
         self.tr_views()
         self.tr_keyword()
         self.tr_analysis_groups()
+        self.tr_source_groups()
         return self.out
 
 
 def emit(tr):
     o = tr.out
+    bl = lambda v: 'true' if v else 'false'
     ag = {'ivp': 'AgIvp', 'time': 'AgTime'}
     sel = o['select']
     lines = ['(* GENERATED from lcapy/superposition.py + lcapy/netlist.py (sha256 %s) by tools/tr_superpos.py. Do not edit. *)' % tr.sha,
@@ -292,6 +407,26 @@ def emit(tr):
              '  | ATime, _ => Some gen_time_key',
              '  | AGeneral, g => Some (AgKind g)',
              '  end.',
+             '(* keys of the analysis groups (= of the sub-netlists of Netlist._subcircuits_make) from the keys of independent_source_groups(True) *)',
+             'Definition gen_is_noise_group (g : group) : bool := match g with GN _ => true | _ => false end.',
+             'Definition gen_akeys (m : amode) (ks : list group) : list agroup :=',
+             '  match m with',
+             '  | AIvp => gen_ivp_key :: (if gen_ivp_keeps_noise then List.map AgKind (List.filter gen_is_noise_group ks) else nil)',
+             '  | ATime => gen_time_key :: (if gen_time_keeps_noise then List.map AgKind (List.filter gen_is_noise_group ks) else nil)',
+             '  | AGeneral => List.map AgKind ks',
+             '  end.',
+             '(* NetlistMixin.independent_source_groups / V._select, I._select: the Superposition the kinds / the selected value',
+             '   of a source are taken from (true = Voc, false = Isc), as a function of is_voltage_source *)',
+             'Definition gen_isg_attr (is_voltage_source : bool) : bool := if is_voltage_source then %s else %s.' % (bl(o['isg_attr'][True]), bl(o['isg_attr'][False])),
+             'Definition gen_sel_attr (is_voltage_source : bool) : bool := if is_voltage_source then %s else %s.' % (bl(o['sel_attr'][True]), bl(o['sel_attr'][False])),
+             'Definition gen_isg_transform : bool := %s.' % bl(o['isg_transform']),
+             '(* Netlist._subcircuits_make: sub[kind] = SubNetlist(cct, kind) for every key of the analysis groups *)',
+             'Definition gen_sub_per_group_key : bool := %s.' % bl(o['sub_per_key']),
+             'Definition gen_sub_whole_circuit : bool := %s.' % bl(o['sub_whole']),
+             '(* SubNetlist.__new__ / Netlist.select: every component goes through _select(kind) *)',
+             'Definition gen_select_every_cpt : bool := %s.' % bl(o['select_every_cpt']),
+             '(* Netlist.get_I / _get_Vd: result.add over every sub-netlist *)',
+             'Definition gen_accumulate_all_subs : bool := %s.' % bl(o['accumulate_all']),
              '']
     return '\n'.join(lines)
 
